@@ -16,7 +16,8 @@ Open Scope Z_scope.
 
 (* DevInv holds in every state reachable by a history of the alphabet {shard, set_pipeline_stage,
    add/remove configuration (cascade), rename, replace_input_with, resize_outputs, resize_inputs, remove node,
-   clone, to_proto;from_proto}, from any state satisfying it — for all histories, no bound.
+   clone, to_proto;from_proto at IR >= 11}, over models with nested subgraph bodies, from any state satisfying
+   it — for all histories, no bound.
    ops_ok is the alphabet of DESIGN §6 C19: configurations registered at the time of the request, device
    indices inside range(num_devices), removal with cascade (Example: Proofs3.ex_ops_ok). *)
 Theorem C19_inv_reachable : forall ops h, DevInv h -> ops_ok h ops -> DevInv (run h ops).
@@ -96,20 +97,41 @@ Proof. exact ser_follows_rename. Qed.
 Print Assumptions C19_ser_follows_rename.
 
 (* to_proto ; from_proto at IR >= 11 resolves every serialized name back to the very object it came from:
-   on a DevInv state inside the modelled domain (live names non-empty and distinct) the round trip is the
-   identity on annotations, configurations and names. *)
+   on a DevInv state inside the modelled domain (rt_domain: the wiring itself survives — names are non-empty and
+   identify the values declared in each scope, and every input/output of every node, including values captured
+   from enclosing graphs, resolves through the scope stack to itself) the round trip is the identity on
+   annotations, configurations and names, for any nesting of subgraph bodies. *)
 Theorem C19_roundtrip_identity : forall h,
   DevInv h -> rt_domain h = true -> MULTI_DEVICE_SUPPORTED_VERSION <= s_ir h -> ser_ok h = true ->
   roundtrip h = (h, Ok tt).
 Proof. exact roundtrip_identity. Qed.
 Print Assumptions C19_roundtrip_identity.
 
-(* Below IR 11 the multi-device fields are not serialized: everything is dropped (and DevInv is kept). *)
+(* Name lookup during deserialization goes through the scope stack of the node's graph, innermost first: a
+   successful lookup returns a value DECLARED (graph input / node output) under that name in the innermost
+   enclosing scope that declares the name at all — captured outer values are found in an enclosing scope,
+   local values shadow outer ones (Examples: Proofs3.nest_resolution, nest_roundtrip). *)
+Theorem C19_resolve_through_scopes : forall h s nm v, resolve h s nm = Some v -> resolves_at h nm s v.
+Proof. exact resolve_sound. Qed.
+Print Assumptions C19_resolve_through_scopes.
+
+(* Below IR 11 the model configurations are not serialized, and neither are the annotations of the nodes of the
+   main graph and of functions.  (The property speaks of round trips at IR >= 11; ops_ok admits ORoundTrip only
+   there.) *)
 Theorem C19_roundtrip_old_ir : forall h h',
-  rt_domain h = true -> s_ir h < MULTI_DEVICE_SUPPORTED_VERSION -> roundtrip h = (h', Ok tt) ->
-  s_cfgs h' = [] /\ Forall (fun p => n_dc (snd p) = []) (s_nodes h') /\ DevInv h'.
+  s_ir h < MULTI_DEVICE_SUPPORTED_VERSION -> roundtrip h = (h', Ok tt) ->
+  s_cfgs h' = [] /\ Forall (fun p => node_scope h (fst p) < 2 -> n_dc (snd p) = []) (s_nodes h').
 Proof. exact roundtrip_old_ir. Qed.
 Print Assumptions C19_roundtrip_old_ir.
+
+(* Observation outside the property's quantifier: below IR 11 the gate is not applied inside subgraph bodies
+   (serialize_graph_into is called for graph attributes without the model's IR version), so a nested node keeps
+   its annotation while the configurations are dropped: the reference dangles, the library's check reports it. *)
+Theorem C19_old_ir_nested_dangles :
+  exists h, DevInv h /\ s_ir h < MULTI_DEVICE_SUPPORTED_VERSION /\ snd (roundtrip h) = Ok tt
+            /\ ~ DevInv (fst (roundtrip h)) /\ check (fst (roundtrip h)) = [(3, 1, 0); (10, 1, 0); (10, 1, 1)].
+Proof. exact old_ir_nested_dangles. Qed.
+Print Assumptions C19_old_ir_nested_dangles.
 
 (* Outside the alphabet (documented behaviour of cascade=False, not a finding): the invariant's configuration
    clause does not survive and the library's check says so. *)
